@@ -155,10 +155,11 @@ func productChecks(c *chk, ba, bb *built, directed bool) {
 }
 
 func genProduct(g *vlib.G) {
+	thorough := g.Thorough()
 	for _, directed := range []bool{false, true} {
 		directed := directed
 		maxNodes := 3
-		if !directed && g.Thorough() {
+		if !directed {
 			maxNodes = 4
 		}
 		var specs []gspec
@@ -182,7 +183,9 @@ func genProduct(g *vlib.G) {
 					combos := [][2]int{{idIdentity, idIdentity}, {idSparse, idReversed}, {idReversed, idSparse}}
 					for ci, cb := range combos {
 						for _, v := range []int{vOrdAsc, vSimple, vMulti} {
-							if v == vMulti && ci != 0 {
+							// quick tier, an operand with 4 nodes: one id-map
+							// combination and one of the gonum types, rotating.
+							if !thorough && (sa.n == 4 || sb.n == 4) && (ci != int(sa.mask+sb.mask)%3 || (v != vOrdAsc && (v == vMulti) != (ci == 0))) {
 								continue
 							}
 							ba, bb := build(&sa, cb[0], v), build(&sb, cb[1], v)
